@@ -91,12 +91,30 @@ def compare_generated(run, g, engine="C01"):
     return n
 
 
+def corpus_scenarios(prop="C01"):
+    """hand-written regression scenarios (minimised shapes of past findings and seeded changes): run first"""
+    import glob
+    import json
+    import os
+    from graphql import build_schema, parse, validate
+    out = []
+    root = os.path.join(os.environ.get("VERIF_ROOT", "/verif"), "corpus", prop)
+    for i, f in enumerate(sorted(glob.glob(os.path.join(root, "*.json")))):
+        d = json.load(open(f))
+        errs = validate(build_schema(d["sdl"]), parse(d["queries"]))
+        if errs:
+            raise RuntimeError(f"corpus scenario {f} is not valid GraphQL: {errs[0]}")
+        out.append(scenario.Scenario(seed=900000 + i, sdl=d["sdl"], queries=d["queries"], config=d.get("config", {}),
+                                     features=("corpus",), notes={"name": d["name"]}))
+    return out
+
+
 def run_k1(ctx, n_main=None):
     run = ctx.run
     n_main = n_main or (30 if not ctx.thorough else 250)
     n_exotic = 10 if not ctx.thorough else 60
     base = ctx.seed * 100000 + 500
-    scs = []
+    scs = corpus_scenarios()
     for si, (feats, n) in enumerate([((), n_main), (("foreign_cond",), n_exotic), (("cond_fragment",), n_exotic),
                                      (("untyped_inline",), n_exotic), (("weird_names",), n_exotic)]):
         for i in range(n):
